@@ -47,6 +47,8 @@ tm = make(map[string]int64)
 pt = new(int64)
 pn = new(string)
 fz = func() { return }
+st = make(struct { A []int64, B map[string]int64 })
+st2 = make(struct { S struct { A []int64 } })
 `)
 	must(err)
 	must(e.Define("id", func(x interface{}) interface{} { return x }))
@@ -68,6 +70,8 @@ fz = func() { return }
 	must(e.Define("nilslice", []interface{}(nil)))
 	must(e.Define("nilmap", map[interface{}]interface{}(nil)))
 	must(e.Define("ptrs", []*int64{nil, new(int64)}))
+	must(e.Define("rec", GoRec{A: 1, B: "b", C: []int64{1}}))
+	must(e.Define("recp", &GoRec{A: 1}))
 	return e
 }
 
@@ -120,6 +124,8 @@ var degenerateForms = []string{
 	"for p in ptrs { p }", "for p in nilptr { }", "for p in nilslice { }", "for k, w in nilmap { }", "for p in ch { break }", "for p in v { }", "for p in a { }", "for p, q in c { }", "for in c { }",
 	"b * 9223372036854775807", "b * -1", "c[9223372036854775807]", "c[-9223372036854775808]", "c[1:9223372036854775807]", "make([]int64, -1)", "make([]int64, 1, 0)", "make(chan int64, -1)",
 	"make(v)", "make([]v)", "make(map[v]v)", "make(a.b)", "make(m.v)", "make(type T, 1)", "make(type int64, c)", "new(v)", "new(m)",
+	"x[st] = 1", "x[st]", "delete(x, st)", "{st: 1}", "x[st2] = 1", "x[[st]] = 1", "x[rec] = 1", "x[rec]", "delete(x, rec)", "{rec: 1}", "st in [st]", "rec == rec", "st == st", "switch st { case st: 1 }",
+	"tm[st] = 1", "x[f] = 1", "x[ch] = 1\nx[ch]", "x[pt] = 1", "x[m] = 1", "x[1.5] = 1\nx[1.5]", "x[nil] = 1\nx[nil]",
 	"x[c] = 1", "x[x] = 1", "delete(x, c)", "delete(x, x)", "delete(a)", "delete(c, 1)", "delete(v, 1)", "delete(nilmap, 1)", "nilmap[1] = 2", "nilmap.k = 2", "nilslice[0] = 1", "nilslice[0]", "nilptr.x", "nilptr.x = 1",
 	"close(v)", "close(a)", "close(ch)\nclose(ch)", "close(ch)\nch <- 1", "v <- 1", "a <- 1", "<-v", "<-a", "ch <- c", "ch <- v", "v, ok = <-v", "c, c = <-ch",
 	"callcb(v)", "callcb(a)", "callcb(func(p) { })", "callcb1(func() { })", "callcb1(func(p) { return \"s\" })", "callcb1(func(p) { throw 1 })", "callcb1(boom)", "callcb(boom)",
